@@ -11,11 +11,11 @@ CLAIMED = {
  "C01": C("property-based testing (proptest): generated data sets vs exact rational-arithmetic reference model, forward-error envelopes; textbook-killer family; hill-climbing search on error/envelope (thorough)",
    "Exploration: Mean and Variance fed one observation at a time are compared accessor by accessor with exact big-integer statistics of the same multiset inside the DESIGN.md 4.1 envelope, over tens of thousands of constructed data sets (13 shapes x 6 orderings x 30 decades of scale x conditioning up to 1e12, n up to 3e4; thorough 1e5/1e6) plus data on which the textbook formula loses every digit. Cannot prove the bound for all inputs."),
  "C02": C("property-based testing: bounded-exhaustive enumeration of short sequences x chunkings x merge orders + proptest-generated (data, chunking, merge tree) vs exact reference model",
-   "Exploration with an exhaustive sub-space: every sequence of length <= 4 over three 3-value alphabets x every composition into <= 4 possibly-empty contiguous chunks x every merge order, and generated data sets up to 3e4 elements with left-chain, right-chain, balanced and random merge trees, for Mean, Variance, Skewness, Kurtosis, Moments4 and define_moments! orders 5, 6, 8, 10; merged estimator judged against the exact statistics of the whole sequence with the single-pass envelope, len exact."),
+   "Exploration with an exhaustive sub-space: every sequence of length <= 4 over three 3-value alphabets x every composition into <= 4 possibly-empty contiguous chunks x every merge order, and generated data sets up to 3e4 elements with left-chain, right-chain, balanced and random merge trees, for Mean, Variance, Skewness, Kurtosis, Moments4 and define_moments! orders 5, 6, 7, 8, 9, 10; merged estimator judged against the exact statistics of the whole sequence with the single-pass envelope, len exact."),
  "C03": C("property-based testing: generated skewed / heavy-tailed / two-point / offset data vs exact standardized moments, envelopes; hill-climbing search (thorough)",
    "Exploration: skewness(), kurtosis() and the re-exported mean/variance accessors of Skewness and Kurtosis against exact m3/m2^1.5 and m4/m2^2-3 over generated data weighted towards asymmetric shapes, offsets up to 1e9 spreads."),
- "C04": C("property-based testing: generated data x macro orders {4,5,6,8,10} x every p <= N vs exact central moments (scale: absolute central moment); cross-agreement metamorphic check; search (thorough)",
-   "Exploration: five define_moments! instantiations, every central and standardized moment up to the order, fixed values bit-for-bit, plus agreement with Mean/Variance/Skewness/Kurtosis within two envelopes."),
+ "C04": C("property-based testing: generated data x macro orders {4,5,6,7,8,9,10} x every p <= N vs exact central moments (scale: absolute central moment); cross-agreement metamorphic check; search (thorough)",
+   "Exploration: seven define_moments! instantiations, every central and standardized moment up to the order, fixed values bit-for-bit, plus agreement with Mean/Variance/Skewness/Kurtosis within two envelopes."),
  "C05": C("model-based differential testing: bounded-exhaustive small-alphabet streams + proptest-generated streams, every prefix compared with an independent transcription of the P-square algorithm (ambiguity-aware); metamorphic monotone-tracking relation",
    "Exploration with exhaustive sub-spaces: every stream over 2/3/4-value alphabets up to length 12/8/7 (thorough 16/11/9) x 8 values of p, and random streams of 10 kinds up to 2e3 (2e4) observations: after every observation from the fifth on quantile() and the serialised marker heights/positions equal the reference model's; arithmetic progressions are tracked within 0.10 range in both directions.",
    "Trusted: harness/src/p2ref.rs (transcribed from Jain & Chlamtac 1985, not from the implementation); streams are compared only up to the first decision of the reference that is within 1e-9 relative of flipping. Marker state is read through serde (fields q, n)."),
